@@ -16,6 +16,7 @@ import (
 
 	"verifh/lib/hx"
 
+	"github.com/criyle/go-sandbox/container"
 	"github.com/criyle/go-sandbox/pkg/forkexec"
 	"github.com/criyle/go-sandbox/pkg/mount"
 	"github.com/criyle/go-sandbox/pkg/rlimit"
@@ -46,6 +47,56 @@ func launcherHelper() {
 	}
 	r.Start()
 	os.Exit(3)
+}
+
+// containerHist: a history of launches in ONE container environment, with the callback before or after exec, succeeding or refusing,
+// under a live or an already cancelled context; what the callback finds, and whether the target ran
+func containerHist(c map[string]any, scratch string) map[string]any {
+	env, err := hx.NewEnv(scratch, nil)
+	if err != nil {
+		return map[string]any{"harness_err": err.Error()}
+	}
+	defer env.Destroy()
+	initPid := container.InitPidVerif(env)
+	null, _ := os.OpenFile("/dev/null", os.O_RDWR, 0)
+	defer null.Close()
+	outs := []any{}
+	for i, raw := range c["launches"].([]any) {
+		l := raw.(map[string]any)
+		marker := fmt.Sprintf("/w/marker%d_%d", hx.Int(c["id"]), i)
+		hostMarker := fmt.Sprintf("/proc/%d/root%s", initPid, marker)
+		os.Remove(hostMarker)
+		o := map[string]any{"calls": 0}
+		p := container.ExecveParam{Args: []string{"/vb/probe_target", "mark", marker}, Env: []string{}, Files: []uintptr{null.Fd(), null.Fd(), null.Fd()},
+			SyncAfterExec: l["sync_after"] == true}
+		if l["cb"] != "none" {
+			p.SyncFunc = func(pid int) error {
+				o["calls"] = o["calls"].(int) + 1
+				o["pid_is_init"] = pid == initPid
+				exe, _ := os.Readlink(fmt.Sprintf("/proc/%d/exe", pid))
+				o["exe_is_target"] = strings.HasSuffix(exe, "probe_target")
+				_, merr := os.Stat(hostMarker)
+				o["marker_at_callback"] = merr == nil
+				if l["cb"] == "fail" {
+					return errors.New("callback refuses")
+				}
+				return nil
+			}
+		}
+		ctx, cancel := context.WithTimeout(context.Background(), 10*time.Second)
+		if l["precancel"] == true {
+			cancel()
+		}
+		res := env.Execve(ctx, p)
+		cancel()
+		time.Sleep(5 * time.Millisecond)
+		_, merr := os.Stat(hostMarker)
+		o["target_ran"] = merr == nil
+		o["status"], o["error"] = int(res.Status), res.Error
+		outs = append(outs, o)
+	}
+	perr := env.Ping()
+	return map[string]any{"launches": outs, "ping_err": fmt.Sprint(perr)}
 }
 
 func launcherDeath(c map[string]any, scratch string) map[string]any {
@@ -113,6 +164,9 @@ func main() {
 	self, _ := os.Readlink("/proc/self/exe")
 	hx.Cases(func(c map[string]any) map[string]any {
 		fault := c["fault"].(string)
+		if fault == "container_hist" {
+			return containerHist(c, scratch)
+		}
 		if fault == "launcher_death" {
 			return launcherDeath(c, scratch)
 		}
